@@ -259,10 +259,12 @@ def c19_alias(split, pa1, va1, pa2, va2, pva, mi, side):
                 break
         # known finding (specific signature): the node aliased as &i sits under parents handing down different delete flags
         # (x is !merge, y is plain); the original keeps the flag of the parent that attached it last, the pickle copy
-        # re-derives it from the first: only the effective delete flag of the lists below that node differs
-        if how == 'pickle' and split['doc'] == 2 and fa.get('delete') is False and len(d0) == len(d1):
+        # re-derives it from the first: only the effective inherited flags (delete / allow_new / safe) of the lists below that node differ
+        if how == 'pickle' and split['doc'] == 2 and len(d0) == len(d1) \
+                and (fa.get('delete') is False or fa.get('allow_new') is False or fa.get('safe') is False):
             diffs = [(x, y) for x, y in zip(d0, d1) if x != y]
-            if all(x[0] in ('x.inner.v', 'y.first.v', 'y.second.inner.v') and x[:5] == y[:5] and x[6:] == y[6:] for x, y in diffs) \
+            # fields 5..7 (effective delete / allow_new / safe) and 10 (what the list hands to its own children) derive from inherited flags
+            if all(x[0] in ('x.inner.v', 'y.first.v', 'y.second.inner.v') and x[:5] == y[:5] and x[8:10] == y[8:10] for x, y in diffs) \
                     and known('C19-alias-two-parents'):
                 return True
         return False
